@@ -32,7 +32,9 @@ REQUIRED = ['backends/libwayland_debug_output/parse.py:Parser.parse_all', 'core/
 DOC_MATCHERS = ['wl_surface', 'xdg_*', '5', '4b', '.commit', 'wl_surface.commit', 'B: .commit', 'wl_pointer(pressed)', 'wl_pointer(buffer=)', '.(nil)',
                 '.new', 'wl_surface.new', '.destroyed', '10.destroyed', 'wl_pointer, .commit', 'wl_pointer, wl_touch ! .motion ', 'xdg_* ! xdg_popup, .get_popup',
                 '(x=0, y=0)', '55a.[motion, axis]', '[wl_pointer ! 55, 62].motion', '([x=0, y=0])', '*', '!', 'A: wl_pointer, wl_surface.[commit, destroy]',
-                'wl_pointer.[! motion, frame]', '! wl_callback, .frame', '.set_title("my app")', '(1.5)', '(-3)', '@5b', '.(@5b)', '(x=[1, 2 ! 3])', 'wl_surface@', '#5']
+                'wl_pointer.[! motion, frame]', '! wl_callback, .frame', '.set_title("my app")', '(1.5)', '(-3)', '@5b', '.(@5b)', '(x=[1, 2 ! 3])', 'wl_surface@', '#5',
+                '(n*=1)', '([x, n*]=1)', '(*e=nil)', '(*=*)', '(*id=5b)', '.(x*=)', '(*=)', '.*(*a*=*s*)', '[*].[*]([*]=[*])', 'w*.s*(n*="s")', '(na*e=1.5)', '(! n*=1)',
+                '*: *.*(*)', '[A, *]: x*', '(?=1)', '(**=1)', '.(*=fd)', '(*=new)']
 TOKENS = ['7' * 4400, '-' + '9' * 5000, '[' * 300, '(' * 300, '[' * 300 + 'x' + ']' * 300, '(' * 200 + ')' * 200, '1e999', '-1e999', 'infinity', '[', ']', '(', ')', '!', ',', '.', ':', '=', '@', '#', '*', '"', ' ', '~', '-', '\\', "'", '\x1b[31m', '\x1b[0m', '\t', 'nil', 'new', 'destroyed', 'żółć', '日本', '0', '007', '1e9',
           'inf', 'nan', '1_0', '99999999999999999999999', 'a' * 300, '\x00', '%s', '{', '}', '..', '::', '((', '))', '[[', ']]', '""', 'unknown', 'A', 'wl_display', '1a', 'zz']
 COMMANDS = ['help', 'list', 'filter', 'breakpoint', 'matcher', 'connection', 'resume', 'quit', 'h', 'l', 'f', 'b', 'm', 'c', 'r', 'q', 'w', 'wl', 'wlh', 'wll', 'wlf', 'wlb', 'wlm',
@@ -150,6 +152,11 @@ def run_log(ctx, spec):
             import traceback
             ctx.violation('log-exception', '%s: %r escaped the log pipeline' % (type(e).__name__, e), case, tb=traceback.format_exc()[-1200:])
             continue
+        reads = [p for k, p in s.events if k == 'read']
+        if not any(k == 'eof' for k, p in s.events):
+            ctx.violation('not-consumed', 'the reader stopped after line %d of %d: the rest of the input was never read%s' % (
+                (reads[-1] + 1) if reads else 0, len(lines), ' (after an internal error)' if any(k == 'out' and 'Traceback' in p for k, p in s.events) else ''), case)
+            continue
         opened, closed = check_closed(s.events)
         # pass-through text may itself look like a notice: only count notices that are not pass-through (no prefix) - done by
         # parse_line; a log line that IS the text of a notice would be passed through with the prefix, so no confusion
@@ -217,6 +224,14 @@ def gen_matcher_text(rng):
         t = mutate_text(rng, t)
     if rng.random() < 0.15:
         t = t + rng.choice([', ', ' ! ', '.', ':', '(']) + rng.choice(DOC_MATCHERS)
+    if rng.random() < 0.2:
+        # wildcards inside any word (names of arguments included)
+        words = list(re.finditer(r'[A-Za-z_]{2,}', t))
+        if words:
+            w = rng.choice(words)
+            a = rng.randint(w.start(), w.end() - 1)
+            b = rng.randint(a, w.end())
+            t = t[:a] + '*' + t[b:]
     return t
 
 
@@ -418,6 +433,8 @@ def replay(ctx, case):
             return
         opened, closed = check_closed(s.events)
         print('opened', opened, 'closed', closed)
+        if not any(k == 'eof' for k, p in s.events):
+            ctx.violation('not-consumed', 'the reader stopped before the end of the input', case)
         tb = [p for k, p in s.events if k == 'out' and 'Traceback (most recent call last)' in p]
         if 'session_no' in case and (tb or not opened):
             ctx.violation('wellformed-log-abandoned', 'decoding abandoned: %s' % (tb[0].strip().split('\n')[-1][:160] if tb else 'no connection opened'), case)
